@@ -12,6 +12,7 @@
 
 #include "model.hpp"
 #include "vh_hooks.hpp"
+#include "../c02_enc_o5m.hpp"
 
 #include <osmium/io/compression.hpp>
 #include <osmium/io/o5m_input.hpp>
@@ -209,6 +210,26 @@ void build_files(uint64_t seed) {
         add(f.fmt, std::string(f.opts) + " small", write_with_writer(dir, f.opts, mdl::gen_dataset(rng, go, 12), mdl::gen_header(rng, f.cs)));
         { mdl::GenOpts m = go; m.max_string = 60; add(f.fmt, std::string(f.opts) + " medium", write_with_writer(dir, f.opts, mdl::gen_dataset(rng, m, 400), mdl::gen_header(rng, f.cs))); }
         if (vh::thorough()) { mdl::GenOpts m = go; m.max_string = 40; add(f.fmt, std::string(f.opts) + " large", write_with_writer(dir, f.opts, mdl::gen_dataset(rng, m, 20000), mdl::gen_header(rng, f.cs))); }
+    }
+    // o5m / o5c from the specification-derived encoder: tiny files, a file whose only dataset has a
+    // 2-byte length (>= 128 bytes payload: a way with many node refs), and files with long strings
+    for (int k = 0; k < 6; ++k) {
+        mdl::GenOpts go; go.valid_locations_only = true; go.changeset_u32_max = false;
+        go.max_string = k < 2 ? 6 : 60; go.max_tags = k < 2 ? 1 : 4; go.max_nodes = 3; go.max_members = 3;
+        std::vector<mdl::Obj> D = mdl::gen_dataset(rng, go, k < 2 ? 2 : 30);
+        if (k == 2 || k == 3) {
+            D.clear();
+            mdl::Obj w = mdl::gen_object(rng, go, mdl::WAY);
+            w.tags.clear(); w.user = "u"; w.nodes.clear();
+            for (int n = 0; n < (k == 2 ? 125 : 200); ++n) w.nodes.push_back(mdl::NodeRef{100 + n, mdl::UNDEF, mdl::UNDEF});
+            D.push_back(w);
+        }
+        const bool o5c = k == 5;
+        c02::fit_o5m(D, o5c);
+        c02::O5mCfg cfg; cfg.o5c = o5c; cfg.plain_style = k < 4;
+        c02::O5mEncoder enc{rng, cfg};
+        mdl::Header H; H.generator = "g";
+        add(o5c ? "o5c" : "o5m", vh::fmt("encoder o5m #%d", k), enc.encode(D, H).bytes);
     }
     // o5m: fixtures (and whatever else is in the seeds directory)
     const std::string sdir = vh::arg("seeds", "/verif/seeds/o5m");
